@@ -70,6 +70,9 @@ T = [
 ("C03","fix: MemFS.RemoveAll reported the error of the directory it was asked to empty before those found below it","MemFS.RemoveAll by a non-administrator of a directory he cannot write whose sub directory is sticky and holds entries of somebody else: EACCES (of the parent) instead of the EPERM met first below (os.RemoveAll goes depth first)"),
 ("C06","fix: Stat and Lstat read the node while its directory is read locked","Stat/Lstat || Remove of the same name (or a Rename that replaces it; also Remove followed by a re-creation of the name) returned an info with the link count already decremented: the node was read after the lock of its directory had been released (was KF-C06-004 and KF-C03-019)"),
 ("C07","fix: RoFile.Sync reported","Sync on a file opened through a BasePathFS built on a RoFS panicked (FromBasePath: the error of RoFile.Sync carried the text \"not implemented\" as its path)"),
+("C07","fix: MkdirAll and Mkdir on a volume that does not exist","Windows-typed MemFS.MkdirAll on a volume that was not added dereferenced a nil root; Windows-typed OrefaFS Mkdir, MkdirAll and MkdirTemp on another volume walked up past the volume name and panicked in SplitAbs (were KF-C07-006 and KF-C07-007)"),
+("C17","fix: the default identity manager of a MemFS","a Windows-typed MemFS built on a Linux host without an identity manager got a Linux-typed MemIdm: TempDir() and the administrator's home directory did not exist, CreateTemp(\"\", p) and MkdirTemp(\"\", p) failed where the Linux-typed twin succeeds"),
+("C17","fix: Abs joined a rooted Windows path","on a Windows-typed file system a rooted path without volume (\\Users, as avfs.HomeDir(vfs, \"\") returns it) was joined to the current directory instead of the root of the current volume: Stat of it failed from any directory but the root, the Linux-typed twin succeeds"),
 ]
 log = subprocess.check_output(['git','-C','/repo','log','--format=%h %s','adfd2e3..HEAD']).decode().strip().split('\n')
 subj = {}
